@@ -35,7 +35,7 @@ def floors(tier):
         "classes": {"C14:exactly-at-D": 200, "C14:equidistant": 200, "C14:collapse-or-cross": 100, "C14:none-in-range": 300,
                     "C14:inside": 1000, "C14:just-outside": 300, "C14:align:guard-fired": 50, "C14:align:reference-untouched": 300,
                     "C14:morph:filter": 300, "C14:morph:count-mismatch": 100, "C14:morph:empty": 20, "C14:ref-is-point-tier": 300,
-                    "C14:ref-is-interval-tier": 300},
+                    "C14:ref-is-interval-tier": 300, "C14:reference-edited-between-calls": 200},
     }
 
 
@@ -385,6 +385,17 @@ def _workload(tier, rng, shard, nshards):
         ents = jitter_tier(rng, refs, D, kind, dyadic)
         t = make_tier(kind, "t", ents, 0.0, 6.0 + 20 * D)
         call(t.dejitter, ref, D)
+        if k % 3 == 0 and len(ref.entries) >= 2:
+            # the reference tier is edited in place between two adjustments against it
+            REC.cls("C14:reference-edited-between-calls")
+            with core.paused():
+                victim = rng.choice(ref.entries)
+                ref.deleteEntry(victim)
+                if rng.random() < 0.4:
+                    extra = rng.choice(refs) + D * 3
+                    call(ref.insertEntry, (extra, extra + D * 2, "n") if ref.tierType == "IntervalTier" else (extra, "n"), "replace", "silence")
+            call(t.dejitter, ref, D)
+            refs = sorted({v for e in ref.entries for v in e[:-1]}) or refs
         if k % 4 == 0:
             tg = Textgrid()
             tg.addTier(t, reportingMode="silence")
